@@ -34,6 +34,7 @@ structure Srv where
   store : List (Key × Key)
   bad : List (Key × Reply)
   an : String
+  cluster : Bool := false   -- cluster node: a command whose keys hash to different slots is refused
 
 def parseBad (s : String) : Option (List (Key × Reply)) := do
   let ps ← pairList s
@@ -54,9 +55,23 @@ def Srv.firstBad (sv : Srv) (keys : List Key) : Option Reply :=
 def everyNth (n : Nat) (l : List Key) : List Key :=
   (List.range l.length).filterMap fun i => if i % n == 0 then l[i]? else none
 
+/-- the keys of a command the helpers can send (by command name) -/
+def cmdKeys (argv : List Key) : List Key :=
+  let name := argv.headD []
+  let rest := argv.drop 1
+  if name == s "MGET" || name == s "DEL" then rest
+  else if name == s "JSON.MGET" then rest.dropLast
+  else if name == s "GET" || name == s "JSON.GET" || name == s "SET" || name == s "JSON.SET" then rest.take 1
+  else if name == s "MSET" || name == s "MSETNX" then everyNth 2 rest
+  else if name == s "JSON.MSET" then everyNth 3 rest
+  else []
+
+def crossSlotText : Key := s "CROSSSLOT Keys in request don't hash to the same slot"
+
 def Srv.answer (sv : Srv) (argv : List Key) : Reply :=
   let name := argv.headD []
   let rest := argv.drop 1
+  if sv.cluster && ((cmdKeys argv).map Slot.slot).eraseDups.length > 1 then .val (.rerr crossSlotText) else
   let arrReply (keys : List Key) : Reply :=
     match sv.firstBad keys with
     | some r => r
@@ -101,7 +116,7 @@ def parseSrv (ws : List String) : Option Srv := do
   let st ← (field ws "st").bind kvList
   let bad ← (field ws "bad").bind parseBad
   let an ← field ws "an"
-  pure ⟨st, bad, an⟩
+  pure ⟨st, bad, an, false⟩
 
 /-! rendering -/
 
@@ -221,7 +236,15 @@ def step (_ : Unit) (ws : List String) : Unit × String :=
       | some a => ((), a)
       | none => bad
     else
-    match parseSrv rest with
+    if op == "!mk" then
+      -- oracle: every command sent to the cluster client addresses one slot (by the slot spec)
+      match (field rest "cmds").bind fun x => (splitL x ";").mapM keyList with
+      | some cs =>
+        ((), if cs.all fun a => ((cmdKeys a).map Spec.Slot.slotSpec).eraseDups.length ≤ 1 then "ok"
+             else "violates-C31:command-mixes-slots")
+      | none => bad
+    else
+    match (parseSrv rest).map fun sv => { sv with cluster := !single } with
     | none => bad
     | some sv =>
       let srv := sv.answer
